@@ -159,6 +159,12 @@ DecNext ==
 
 DecDone == eof
 
+\* simulation: ONE random successor per state (TLC's simulator would otherwise compute every successor first)
+DecNextSim ==
+  IF ~derr /\ ~eof /\ pos < Total(str.frames)
+  THEN \E k \in {RandomElement(SegSizes(str.frames, pos))} : \E c \in {RandomElement(RunLens(str.frames, pos, k))} : Read(k, c)
+  ELSE Eof
+
 -----------------------------------------------------------------------------
 (* Send side                                                               *)
 
@@ -282,6 +288,21 @@ SbNext ==
 
 SbDone == evt.ev = "End"
 
+SbChoices ==
+  (IF nm < Len(scr) /\ (~sb.reading \/ ~busy) THEN {"Submit"} ELSE {})
+  \cup (IF ShouldEncode(sb) THEN {"Encode"} ELSE {})
+  \cup (IF CanRead(sb) THEN {"acc1", "acc2", "acc3", "acc4"} \cup (IF idle < MaxIdle THEN {"pend", "zero"} ELSE {}) ELSE {})
+  \cup (IF nm = Len(scr) /\ ~CanRead(sb) THEN {"End"} ELSE {})
+SbNextSim ==
+  /\ evt.ev # "End"
+  /\ \E a \in {RandomElement(SbChoices)} :
+       CASE a = "Submit" -> Submit
+         [] a = "Encode" -> Encode
+         [] a = "pend"   -> Sock("pend", 0, 1)
+         [] a = "zero"   -> Sock("zero", 0, 1)
+         [] a = "End"    -> End
+         [] OTHER        -> \E k \in {RandomElement(SockSizes(sb))} : \E c \in {RandomElement(SockRuns(sb, k))} : Sock("acc", k, c)
+
 -----------------------------------------------------------------------------
 NoStream == [frames |-> <<>>, max |-> 0]
 
@@ -291,5 +312,6 @@ Init ==
   ELSE SbInit /\ str = NoStream /\ pos = 0 /\ nY = 0 /\ derr = FALSE /\ eof = FALSE
 
 Next == IF Side = "dec" THEN DecNext ELSE SbNext
+NextSim == IF Side = "dec" THEN DecNextSim ELSE SbNextSim
 Done == IF Side = "dec" THEN DecDone ELSE SbDone
 =============================================================================
